@@ -378,6 +378,11 @@ class Interp(object):
         if r[0] == "class":
             return ("class", r[1].key)
         if r[0] == "global":
+            # a module-level string constant that is never rebound denotes its value
+            mod = self.prog.modules.get(r[1])
+            defs = mod.assigns.get(r[2], []) if mod is not None else []
+            if len(defs) == 1 and isinstance(defs[0], ast.Constant) and isinstance(defs[0].value, str) and not any(isinstance(n, ast.Global) and r[2] in n.names for n in ast.walk(mod.tree)):
+                return ("const", defs[0].value)
             return ("global", r[1], r[2])
         if r[0] == "mod":
             return ("extmod", r[1])
